@@ -823,6 +823,126 @@ Qed.
 
 End Proofs.
 
+(** ** The memoised search computes the same verdict *)
+
+Section MemoProofs.
+Context {Sp : Spec} (st_eqb : St Sp -> St Sp -> bool).
+Context (st_eqb_sound : forall a b, st_eqb a b = true -> a = b).
+(** [U]: the operations of the history; every [todo] met by the search is a sublist of it. *)
+Context (U : list (oper Sp)) (U_nodup : NoDup (map o_inv U)).
+
+Definition dead (todo : list (oper Sp)) (s : St Sp) : Prop :=
+  forall fuel, search fuel todo s = false.
+
+Definition good (todo : list (oper Sp)) : Prop :=
+  incl todo U /\ NoDup (map o_inv todo).
+
+(** every cache entry is a dead end *)
+Definition cache_ok (c : @cache Sp) : Prop :=
+  forall k s, In (k, s) c -> forall todo, good todo -> map o_inv todo = k -> dead todo s.
+
+Lemma nats_eqb_eq : forall a b, nats_eqb a b = true -> a = b.
+Proof.
+  induction a as [|x a IH]; destruct b as [|y b]; simpl; try discriminate; auto.
+  intros H; apply andb_true_iff in H; destruct H as [H1 H2].
+  apply Nat.eqb_eq in H1; apply IH in H2; congruence.
+Qed.
+
+Lemma key_inj : forall t1 t2 : list (oper Sp),
+  incl t1 U -> incl t2 U -> map o_inv t1 = map o_inv t2 -> t1 = t2.
+Proof.
+  induction t1 as [|x t1 IH]; destruct t2 as [|y t2]; simpl; intros I1 I2 E;
+    try discriminate; auto.
+  injection E as E1 E2.
+  assert (x = y).
+  { apply (NoDup_map_inj o_inv U); auto; [apply I1|apply I2]; left; auto. }
+  subst; f_equal. apply IH; auto; intros z Hz; [apply I1|apply I2]; right; auto.
+Qed.
+
+Lemma good_drop a todo : good todo -> good (drop_op a todo).
+Proof.
+  intros [I N]; split.
+  - intros x Hx; apply In_drop_op in Hx; apply I; tauto.
+  - apply NoDup_map_filter; auto.
+Qed.
+
+Lemma dead_of_false todo s f :
+  NoDup (map o_inv todo) -> length todo <= f -> search f todo s = false -> dead todo s.
+Proof.
+  intros N L H f'. destruct (search f' todo s) eqn:E; auto.
+  apply search_sound in E; auto. destruct E as (lin & O).
+  rewrite (search_complete lin f todo s O L) in H. discriminate.
+Qed.
+
+Lemma cached_dead k s c todo :
+  cache_ok c -> good todo -> map o_inv todo = k -> cached st_eqb k s c = true -> dead todo s.
+Proof.
+  intros C G E H. unfold cached in H. apply existsb_exists in H.
+  destruct H as ([k' s'] & Hin & H); simpl in H.
+  apply andb_true_iff in H; destruct H as [H1 H2].
+  apply nats_eqb_eq in H1; apply st_eqb_sound in H2; subst.
+  eapply C; eauto.
+Qed.
+
+Definition rec_ok (f : nat) : Prop :=
+  forall todo s c, good todo -> length todo <= f -> cache_ok c ->
+    cache_ok (snd (msearch st_eqb f todo s c)) /\
+    fst (msearch st_eqb f todo s c) = search f todo s.
+
+Lemma try_all_spec f todo s :
+  rec_ok f -> good todo -> length todo <= S f ->
+  forall cands c, incl cands todo -> cache_ok c ->
+    cache_ok (snd (try_all (msearch st_eqb f) todo s cands c)) /\
+    fst (try_all (msearch st_eqb f) todo s cands c) =
+    existsb (fun a => minimal todo a &&
+                      let (s', r) := sstep Sp s (o_op a) in
+                      result_ok a r && search f (drop_op a todo) s') cands.
+Proof.
+  intros R G L. induction cands as [|a cands IH]; intros c I C; simpl; auto.
+  assert (Ha : In a todo) by (apply I; left; auto).
+  assert (I' : incl cands todo) by (intros x Hx; apply I; right; auto).
+  destruct (sstep Sp s (o_op a)) as [s' r].
+  destruct (minimal todo a); simpl; [|apply IH; auto].
+  destruct (result_ok a r); simpl; [|apply IH; auto].
+  destruct (R (drop_op a todo) s' c) as [C' E]; auto using good_drop.
+  { pose proof (drop_op_length a todo Ha); lia. }
+  destruct (msearch st_eqb f (drop_op a todo) s' c) as [b c']; simpl in *. subst b.
+  destruct (search f (drop_op a todo) s'); simpl; auto.
+Qed.
+
+Lemma msearch_spec : forall f, rec_ok f.
+Proof.
+  induction f as [|f IH]; intros todo s c G L C; simpl.
+  - destruct (forallb is_open todo); simpl; auto.
+  - destruct (forallb is_open todo) eqn:Eo; simpl; auto.
+    destruct (cached st_eqb (map o_inv todo) s c) eqn:Ec; simpl.
+    + split; auto.
+      pose proof (cached_dead _ _ _ _ C G eq_refl Ec (S f)) as D.
+      simpl in D; rewrite Eo in D; simpl in D; auto.
+    + destruct (try_all_spec f todo s IH G L todo c (incl_refl _) C) as [C' E].
+      destruct (try_all (msearch st_eqb f) todo s todo c) as [b c']; simpl in *.
+      rewrite <- E. destruct b; simpl; split; auto.
+      intros k s0 [Eq|Hin]; [|apply C'; auto].
+      injection Eq as <- <-. intros todo' G' Ek.
+      assert (todo' = todo) by (apply key_inj; auto; [apply G'|apply G]). subst todo'.
+      apply dead_of_false with (f := S f); auto; [apply G|].
+      simpl; rewrite Eo; simpl; auto.
+Qed.
+
+End MemoProofs.
+
+Theorem lincheck_memo_eq {Sp : Spec} (st_eqb : St Sp -> St Sp -> bool) (h : history Sp) :
+  (forall a b, st_eqb a b = true -> a = b) ->
+  lincheck_memo Sp st_eqb h = lincheck Sp h.
+Proof.
+  intros Hs. unfold lincheck_memo, lincheck. f_equal.
+  destruct (msearch_spec st_eqb Hs (ops_of h) (ops_from_nodup h 0)
+              (length h) (ops_of h) (sinit Sp) []) as [_ E]; auto.
+  - split; [apply incl_refl|apply ops_from_nodup].
+  - apply ops_from_length.
+  - intros k s [].
+Qed.
+
 (** ** Corollaries for FIFO queues
 
     In the words of the property: "no item is invented" and "each enqueued item is
@@ -1070,6 +1190,7 @@ Print Assumptions lp_valid_linearizable.
 Print Assumptions lp_valid_wf.
 Print Assumptions wf_historyb_spec.
 Print Assumptions search_fuel_enough.
+Print Assumptions lincheck_memo_eq.
 Print Assumptions fifo_no_invention.
 Print Assumptions fifo_at_most_once.
 Print Assumptions fifo_empty_was_empty.
